@@ -377,17 +377,19 @@ struct ContListenerFn : Tracked<seq::T_FN, false>
 {
 	bool setsStop;
 	ContListenerFn(int id, bool s) : Tracked<seq::T_FN, false>(id), setsStop(s) {}
-	void operator() (int a, Ctl & c) const { faultPoint(F_CALL); FaultOff off; this->alive("listener invoked"); ++c.seen; g_sink->listener(this->id, a, c.seen); if(setsStop) c.stop = true; }
+	// the third prototype parameter is taken BY VALUE by the prototype, by every listener and by the policy: whoever moves from the
+	// invocation's own copy instead of copying it leaves a moved-from value for the listeners that follow
+	void operator() (int a, Ctl & c, Payload p) const { faultPoint(F_CALL); FaultOff off; this->alive("listener invoked"); p.alive("listener argument"); ++c.seen; g_sink->listener(this->id, a, p.val); if(setsStop) c.stop = true; }
 };
 struct PolCont
 {
-	static bool canContinueInvoking(int, Ctl & c) { faultPoint(F_CALL); return !c.stop; }
+	static bool canContinueInvoking(int, Ctl & c, Payload p) { faultPoint(F_CALL); FaultOff off; p.alive("policy argument"); return !c.stop; }
 };
 
 struct ContInterp : Sink
 {
-	typedef eventpp::CallbackList<void (int, Ctl &), PolCont> L;
-	typedef eventpp::EventDispatcher<int, void (int, Ctl &), PolCont> D;
+	typedef eventpp::CallbackList<void (int, Ctl &, Payload), PolCont> L;
+	typedef eventpp::EventDispatcher<int, void (int, Ctl &, Payload), PolCont> D;
 	const Plan & plan;
 	seq::Violation viol;
 	L * list; D * disp;
@@ -397,23 +399,23 @@ struct ContInterp : Sink
 	int slotWhere[MAXSLOT];
 	uint64_t logHash;
 	std::vector<long> passedPerOp;
-	std::vector<int> expect; size_t epos; int curA; bool inDispatch;
+	std::vector<int> expect; size_t epos; int curA, curP; bool inDispatch;
 
-	explicit ContInterp(const Plan & p) : plan(p), list(nullptr), disp(nullptr), logHash(kHashInit), epos(0), curA(0), inDispatch(false)
+	explicit ContInterp(const Plan & p) : plan(p), list(nullptr), disp(nullptr), logHash(kHashInit), epos(0), curA(0), curP(0), inDispatch(false)
 	{
 		for(int i = 0; i < MAXSLOT; ++i) slotWhere[i] = -1;
 	}
 	bool filter(int, int &, int &) override { return true; }
 	bool mix(int, int, int) override { return true; }
 	bool condition(int, int, int) override { return true; }
-	void listener(int id, long a, long) override
+	void listener(int id, long a, long pval) override
 	{
 		++counters.listenerCalls;
 		logHash = hashMix(logHash, (uint64_t)id * 31 + (uint64_t)a);
 		if(!inDispatch) { viol.raise("listener-outside-dispatch", "listener ran outside an invocation"); return; }
 		if(epos >= expect.size() || expect[epos] != id) { viol.raise("unexpected-listener", "listener " + std::to_string(id) + " ran but the model expects " + (epos < expect.size() ? std::to_string(expect[epos]) : std::string("no further listener: canContinueInvoking had returned false")) ); return; }
 		++epos;
-		if(a != curA) viol.raise("argument-mismatch", "listener received " + std::to_string(a) + " instead of " + std::to_string(curA));
+		if(a != curA || pval != curP) viol.raise("argument-mismatch", "listener " + std::to_string(id) + " received (" + std::to_string(a) + "," + std::to_string(pval) + ") instead of (" + std::to_string(curA) + "," + std::to_string(curP) + ")");
 	}
 	void doOp(const Op & op)
 	{
@@ -451,9 +453,14 @@ struct ContInterp : Sink
 			bool stoppedEarly = false;
 			for(size_t i = 0; i < items[where].size(); ++i) { expect.push_back(items[where][i].id); if(items[where][i].stops) { if(i + 1 < items[where].size()) stoppedEarly = true; break; } }
 			if(stoppedEarly) ++counters.stoppedByPolicy;
-			epos = 0; curA = op.a; inDispatch = true;
+			epos = 0; curA = op.a; curP = op.b; inDispatch = true;
 			Ctl c;
-			try { FaultArm arm; if(where == NKEY) (*list)(op.a, c); else disp->dispatch(where, op.a, c); }
+			try {
+				Payload p(3000, op.b);
+				FaultArm arm;
+				if(op.c & 1) { if(where == NKEY) (*list)(op.a, c, Payload(3000, op.b)); else disp->dispatch(where, op.a, c, Payload(3000, op.b)); }
+				else { if(where == NKEY) (*list)(op.a, c, p); else disp->dispatch(where, op.a, c, p); }
+			}
 			catch(...) { inDispatch = false; throw; }
 			inDispatch = false;
 			if(!viol.set && epos != expect.size()) viol.raise("missed-listener", "only " + std::to_string(epos) + " of the " + std::to_string(expect.size()) + " listeners that must run before canContinueInvoking turns false were invoked");
@@ -760,7 +767,7 @@ void generate(uint64_t seed, Plan & plan)
 		else if(variant == 4) {
 			if(r < 40 && nextId < MAXSLOT - 2) { const int how = (int)rng.below(2); const int stops = rng.chance(1, 4) ? 1 : 0; ops.push_back(Op(O_ADD_LISTENER, nextId, how, stops, k)); known.push_back(nextId++); }
 			else if(r < 50) ops.push_back(Op(O_REMOVE_LISTENER, slot));
-			else { const int a = (int)rng.below(1000); ops.push_back(Op(O_DISPATCH, a, 0, 0, k)); }
+			else { const int a = (int)rng.below(1000); const int pv = 1 + (int)rng.below(1000); ops.push_back(Op(O_DISPATCH, a, pv, (int)rng.below(2), k)); }
 		}
 		else {
 			if(r < 40 && nextId < MAXSLOT - 2) { const int fl = (int)rng.below(4); ops.push_back(Op(O_ADD_LISTENER, nextId, 0, fl, 0)); known.push_back(nextId++); }
